@@ -190,7 +190,7 @@ non-trivial = at least one add_version was answered ExpectedParentVersion; disti
     e.campaign(
         "races",
         rule,
-        e.tier.pick(6000, 600_000),
+        e.tier.pick(150_000, 3_000_000),
         || race_strategy(4, 6, 0),
         render,
         check_race,
@@ -198,7 +198,7 @@ non-trivial = at least one add_version was answered ExpectedParentVersion; disti
     e.campaign(
         "races-multibatch",
         "as 'races' with pending changes above the batching threshold in the prior history",
-        e.tier.pick(48, 3000),
+        e.tier.pick(300, 6000),
         || race_strategy(3, 4, 4),
         render,
         check_race,
